@@ -125,6 +125,9 @@ class Havoc:
             if n is not None and n <= 4 and depth < 3:
                 return Arr([self.value(m.group(1), f'{name}_{i}', depth + 1) for i in range(n)])
             return Opaque('array:' + name)
+        ix = getattr(self, 'ix_structs', {})
+        if re.search(r'(^|::)instruction::\w+$', re.sub(r'<.*>$', '', ty)) and base in ix:     # Anchor-generated argument struct (may share its name with an accounts struct)
+            return S({f: self.value(t, f'{name}_{f}', depth + 1) for f, t in ix[base]})
         if base in self.structs and depth < 4:
             return S({f: self.value(t, f'{name}_{f}', depth + 1) for f, t in self.structs[base]})
         en = source_enums().get(base)
